@@ -858,7 +858,7 @@ def variants_for(case, idx, prop, n_variants):
                  exec=EXEC_STYLES[(k + j) % 3], seed=[True, 3, 11][(k + j) % 3],
                  cases_as_dict=(k % 2 == 0), noshuffle=[False, 0][(k // 3) % 2], case_key_order=(k % 3 == 1),
                  dupkind=k % 3, decoy=(k % 2 == 1), bare_cases=(k % 4 < 2), infer_fn_args=(k % 5 < 2),
-                 grid_order=[None, "desc", None, "rot"][(k + j) % 4], sig_perm=(k % 2 == 1), scalar_overlap=((k // 7) % 2 == 1))
+                 grid_order=[None, "desc", None, "rot"][(k + j) % 4], sig_perm=(k % 2 == 1), scalar_overlap=(((k // 7) // 4) % 2 == 1))
         # numbers next to strings: positional outputs only (a Dataset coordinate would turn them all into strings); the
         # union of such case values has no defined order, so a nested case output is then compared as a multiset
         ok_hs = (not cfg.get("dup")) and cfg["kind"] in ("nested", "flat")
@@ -886,12 +886,16 @@ def variants_for(case, idx, prop, n_variants):
             entries = ["to_ds", "runner"] + (["case_to"] if cfg["nca"] else [])
             v["entry"] = entries[(k + j) % len(entries)]
         out.append(v)
-    if cfg["overlap"] and cfg["nca"] and cfg["kind"] == "flat":
-        # rejection must happen at every entry point: replay the (cheap) behaviour through both
-        seen = {v["entry"] for v in out}
-        for entry in ("core", "case_runner"):
-            if entry not in seen:
-                out.append(dict(out[0], entry=entry))
+    if cfg["overlap"]:
+        # rejection must happen at every entry point and for both spellings of the overlapping grid value: replay the
+        # (cheap: nothing runs) behaviour through all of them instead of one chosen by the behaviour's position
+        if cfg["kind"] in ("nested", "flat"):
+            entries = ["core"] + (["case_runner"] if (cfg["nca"] and cfg["kind"] == "flat") else [])
+        elif cfg["kind"] == "ds":
+            entries = ["to_ds", "runner", "label"] + (["case_to"] if cfg["nca"] else [])
+        else:
+            entries = ["to_ds", "runner"] + (["case_to"] if cfg["nca"] else [])
+        out = [dict(out[0], entry=e_, scalar_overlap=s_) for e_ in entries for s_ in (False, True)]
     return out
 
 
